@@ -3,6 +3,7 @@ package props
 import (
 	"fmt"
 	"math/big"
+	"strings"
 
 	clptypes "github.com/Sifchain/sifnode/x/clp/types"
 	margintypes "github.com/Sifchain/sifnode/x/margin/types"
@@ -62,6 +63,9 @@ type MHistory struct {
 	Env   *env.Env
 	Steps []MStep
 	Desc  map[string]interface{}
+	// the swaps and liquidity changes of the history as transitions of the AMM model: pools that carry liabilities and
+	// custody of real positions, removals against the pool-health gate
+	ClpSteps []Step
 }
 
 func (h MHistory) replay(upto int) map[string]interface{} {
@@ -125,7 +129,7 @@ func (w *marginWorld) setParams(rng *chain.Rng, desc map[string]interface{}) {
 		IncrementalInterestPaymentFundPercentage: pct(),
 		IncrementalInterestPaymentFundAddress:    w.FundInc.Addr.String(),
 		PoolOpenThreshold:                        sdk.NewDecWithPrec(1, 1),
-		RemovalQueueThreshold:                    sdk.NewDecWithPrec(1, 1),
+		RemovalQueueThreshold:                    sdk.MustNewDecFromStr([]string{"0.1", "0.5", "0.9", "0.99", "0.999"}[rng.Intn(5)]),
 		EpochLength:                              int64(1 + rng.Intn(4)),
 		MaxOpenPositions:                         uint64(3 + rng.Intn(40)),
 		SqModifier:                               sdk.MustNewDecFromStr("10000000000000000000000000"),
@@ -299,19 +303,46 @@ func RunMarginHistories(c Ctx, rep *report.Report, rng *chain.Rng, n, steps int,
 				if rng.Intn(6) == 0 {
 					amt = new(big.Int).Mul(base, big.NewInt(int64(1+rng.Intn(4))))
 				}
+				cpre := e.Snapshot()
 				res := e.Swap(u, from, to, amt, big.NewInt(0))
+				cpost := e.Snapshot()
+				if !(res.Code != 0 && balOf(cpre, uid, 0).Cmp(balOf(cpost, uid, 0)) == 0) {
+					*nextID++
+					h.ClpSteps = append(h.ClpSteps, Step{ID: *nextID, Kind: 1, Msg: Msg{Tag: 5, Signer: uid, A: e.DenomID[from], B: e.DenomID[to], X: amt, Y: big.NewInt(0)}, Fee: chain.E(18), OK: res.Code == 0,
+						Pre: cpre, Post: cpost, Log: trunc(res.Log, 160), HistID: hi, StepNo: st, EnvRef: e, Signer: u})
+				}
 				rec(MStep{Kind: 2, OK: res.Code == 0, Pre: pre, Post: e.MarginSnapshot(), StepNo: st, Desc: map[string]interface{}{"tx": "clp Swap", "signer": u.Addr.String(), "from": from, "to": to, "amount": amt.String()}})
 				rep.Count("margin.other.Swap." + okStr(res.Code == 0))
 			case k < 88: // liquidity change
 				pool := mpoolOf(pre, tid)
 				var res chain.TxResult
 				what := "clp AddLiquidity"
+				cpre := e.Snapshot()
+				var cm Msg
+				cs := u
 				if rng.Intn(2) == 0 {
 					d := big.NewInt(int64(2 + rng.Intn(20)))
-					res = e.AddLiquidity(u, tok, new(big.Int).Div(pool.NB, d), new(big.Int).Div(pool.EB, d))
+					an, ax := new(big.Int).Div(pool.NB, d), new(big.Int).Div(pool.EB, d)
+					res = e.AddLiquidity(u, tok, an, ax)
+					cm = Msg{Tag: 2, Signer: uid, A: tid, X: an, Y: ax}
 				} else {
 					what = "clp RemoveLiquidity"
-					res = e.RemoveLiquidity(e.Users[0], tok, int64(1+rng.Intn(3000)), 0)
+					// up to the whole of the creator's share: large removals run into the pool-health gate
+					wb := int64(1 + rng.Intn(3000))
+					if rng.Intn(3) == 0 {
+						wb = int64(3000 + rng.Intn(7001))
+					}
+					cs = e.Users[0]
+					res = e.RemoveLiquidity(cs, tok, wb, 0)
+					cm = Msg{Tag: 3, Signer: e.AcctID[cs.Addr.String()], A: tid, X: big.NewInt(wb), Y: big.NewInt(0)}
+				}
+				cpost := e.Snapshot()
+				if !(res.Code != 0 && balOf(cpre, cm.Signer, 0).Cmp(balOf(cpost, cm.Signer, 0)) == 0) {
+					*nextID++
+					h.ClpSteps = append(h.ClpSteps, Step{ID: *nextID, Kind: 1, Msg: cm, Fee: chain.E(18), OK: res.Code == 0, Pre: cpre, Post: cpost, Log: trunc(res.Log, 160), HistID: hi, StepNo: st, EnvRef: e, Signer: cs})
+					if strings.Contains(res.Log, "health") || strings.Contains(res.Log, "queued") {
+						rep.Count("margin.other.removal-stopped-by-pool-health")
+					}
 				}
 				rec(MStep{Kind: 2, OK: res.Code == 0, Pre: pre, Post: e.MarginSnapshot(), StepNo: st, Desc: map[string]interface{}{"tx": what, "token": tok}})
 				rep.Count("margin.other.liquidity." + okStr(res.Code == 0))
@@ -906,5 +937,12 @@ func C13(c Ctx) *report.Report {
 		"non-trivial = accepted margin transaction or BeginBlock with open positions"
 	_ = clptypes.ModuleName
 	writeMarginFiles(c, rep, "cases_C13", hs, 300)
+	var clpHs []History
+	for _, h := range hs {
+		if len(h.ClpSteps) > 0 {
+			clpHs = append(clpHs, History{ID: h.ID, Env: h.Env, Steps: h.ClpSteps, Desc: h.Desc})
+		}
+	}
+	writeHistFiles(c, rep, "cases_C13_clp", clpHs, 450)
 	return rep
 }
